@@ -153,6 +153,10 @@ func genSegs(t *rapid.T, label string) []*seg {
 	out := make([]*seg, 0, n+rapid.IntRange(0, 3).Draw(t, label+"spare"))
 	for i := 0; i < n; i++ {
 		s := &seg{Magnitude: float32(rapid.IntRange(0, 5).Draw(t, label+"mag"))}
+		if rapid.IntRange(0, 4).Draw(t, label+"frac") == 2 {
+			// binary fractions add exactly in float32 too: 1/16 A, 1/4096 A, 3.5 A
+			s.Magnitude = rapid.SampledFrom([]float32{0.0625, 0.5, 1.0 / 4096, 3.5, 0.001953125}).Draw(t, label+"magFrac")
+		}
 		if i == n-1 && rapid.IntRange(0, 3).Draw(t, label+"inf") == 0 {
 			// infinite
 		} else {
@@ -425,6 +429,11 @@ func genMode(t *rapid.T, label string) *traits.ElectricMode {
 	if rapid.IntRange(0, 2).Draw(t, label+"hasStart") != 0 {
 		off := rapid.SampledFrom([]time.Duration{0, time.Second, -time.Second, 2500 * time.Millisecond, 10 * time.Second}).Draw(t, label+"start")
 		m.StartTime = timestamppb.New(epoch.Add(off))
+		if rapid.IntRange(0, 5).Draw(t, label+"unixEpoch") == 3 {
+			// a schedule that starts at the unix epoch: its start time is the empty Timestamp message, which is an instant
+			// like any other
+			m.StartTime = &timestamppb.Timestamp{}
+		}
 	}
 	if rapid.Bool().Draw(t, label+"meta") {
 		m.Id = "m" + label
